@@ -37,8 +37,11 @@ EmptyHandle == [name |-> 0, hash |-> NoHash, linked |-> FALSE]
 NoTok == <<0, 0>>
 NewOper == [type |-> "tba", table |-> -1, tkey |-> <<NoTok, NoTok>>, broken |-> FALSE, outdated |-> FALSE]
 Pairs(t) == IF t >= 1 THEN 1 ELSE 0
-EmptyOSS == [par |-> <<>>, hand |-> <<>>, oper |-> <<>>, store |-> <<>>, dnd |-> FALSE, cell |-> <<>>, labelled |-> FALSE]
+\* gitems: the pictograms in the order the graph facet first heard of them (the order ChildrenOf and ExecuteAll go by)
+EmptyOSS == [par |-> <<>>, hand |-> <<>>, oper |-> <<>>, store |-> <<>>, dnd |-> FALSE, cell |-> <<>>, labelled |-> FALSE, gitems |-> <<>>]
 EmptyLabelled == [EmptyOSS EXCEPT !.labelled = TRUE]
+
+Register(q, x) == IF \E i \in DOMAIN q : q[i] = x THEN q ELSE Append(q, x)
 
 \* ---- layout grid (ossGridFacet)
 Occupied(S, pos) == \E q \in DOMAIN S.cell : S.cell[q] = pos
@@ -92,7 +95,8 @@ Sync(S, q) ==
 \* every child is re-checked and marked outdated
 MarkChildren(S, cs, i) == IF i > Len(cs) THEN S
                           ELSE LET S1 == CheckOp(S, cs[i]) IN MarkChildren([S1 EXCEPT !.oper[cs[i]].outdated = TRUE], cs, i + 1)
-OnCoreChange(S, q) == MarkChildren(S, SortedSeq(ChildrenOf(S, q)), 1)
+ChildSeq(S, q) == SelectSeq(S.gitems, LAMBDA c : c \in ChildrenOf(S, q))
+OnCoreChange(S, q) == MarkChildren(S, ChildSeq(S, q), 1)
 \* DataFor -> OpenSrc: a source that was closed is opened again and re-connected (nothing is imported); what the handle missed
 \* while the source was closed shows as a difference of the hash
 Reopen(S, q) ==
@@ -120,13 +124,15 @@ CanInsertOperation(S, a, b) == a # b /\ a \in Picts(S) /\ b \in Picts(S)
 InsertOperation(S, new, a, b) ==
   IF ~CanInsertOperation(S, a, b) THEN S
   ELSE [S EXCEPT !.par = (new :> <<a, b>>) @@ S.par, !.hand = (new :> EmptyHandle) @@ S.hand, !.oper = (new :> NewOper) @@ S.oper,
-                 !.cell = (new :> ChildPos(S, a, b)) @@ S.cell]
+                 !.cell = (new :> ChildPos(S, a, b)) @@ S.cell,
+                 !.gitems = Register(Register(Register(S.gitems, a), b), new)]      \* the parents are registered before the new item
 CanErase(S, p) == p \in Picts(S) /\ ChildrenOf(S, p) = {}
 Erase(S, p) ==
   IF ~CanErase(S, p) THEN S
   ELSE LET S0 == Sync(S, p) IN       \* Discard saves the state of the attached source first
        [S0 EXCEPT !.par = [x \in DOMAIN S0.par \ {p} |-> S0.par[x]], !.hand = [x \in DOMAIN S0.hand \ {p} |-> S0.hand[x]],
-                  !.oper = [x \in DOMAIN S0.oper \ {p} |-> S0.oper[x]], !.cell = [x \in DOMAIN S0.cell \ {p} |-> S0.cell[x]]]
+                  !.oper = [x \in DOMAIN S0.oper \ {p} |-> S0.oper[x]], !.cell = [x \in DOMAIN S0.cell \ {p} |-> S0.cell[x]],
+                  !.gitems = SelectSeq(S0.gitems, LAMBDA x : x # p)]
 \* the user moves a pictogram along its row; an occupied target cell swaps its occupant into the freed cell
 ShiftPict(S, p, k) ==
   IF p \notin Picts(S) \/ k = 0 \/ S.cell[p][2] + k < 0 THEN S
@@ -184,9 +190,23 @@ OpenSrc(S, p) ==
 
 \* the document is saved, the schema object and its sources are closed, and the document is loaded again (items in any order),
 \* the sources are re-opened on demand: nothing the schema reports may change.  Only taken when nothing is pending.
-Reload(S) == S
+\* The graph facet registers pictograms in the order the loaded connections mention them (child, then parent): n < 3 keeps
+\* the saved order (every item with its parents); from 3 on all first parents come before all second parents.
+ConnectionsOf(S) == LET ops == SelectSeq(S.gitems, LAMBDA x : IsOp(S, x))
+                        RECURSIVE C(_, _)
+                        C(i, k) == IF i > Len(ops) THEN <<>> ELSE <<<<ops[i], S.par[ops[i]][k]>>>> \o C(i + 1, k)
+                        RECURSIVE Both(_)
+                        Both(i) == IF i > Len(ops) THEN <<>> ELSE <<<<ops[i], S.par[ops[i]][1]>>, <<ops[i], S.par[ops[i]][2]>>>> \o Both(i + 1)
+                    IN [grouped |-> Both(1), interleaved |-> C(1, 1) \o C(1, 2)]
+RECURSIVE RegisterAll(_, _, _)
+RegisterAll(cs, i, acc) == IF i > Len(cs) THEN acc ELSE RegisterAll(cs, i + 1, Register(Register(acc, cs[i][1]), cs[i][2]))
+Reload(S, n) == [S EXCEPT !.gitems = RegisterAll(IF n >= 3 THEN ConnectionsOf(S).interleaved ELSE ConnectionsOf(S).grouped, 1, <<>>)]
 
 \* ---------------------------------------------------------------- operations
+\* Re-defining an operation discards its result.  Whether a child's equation table that named a base set of that result still
+\* names something after the next execution depends on which identifiers the library re-issues (copies that collide are given
+\* fresh identifiers, the others keep theirs) - below the abstraction of this model; generators do not take that step.
+NamedByChildTable(S, p) == \E c \in ChildrenOf(S, p) : S.oper[c].table >= 1
 InitFor(S, p, type, table) ==
   IF ~IsOp(S, p) THEN S
   ELSE IF type = "synt" /\ table = -1 THEN S                         \* synthesis needs options
@@ -240,7 +260,7 @@ Execute(S, p, newSrc, autoDiscard) ==
                          !.oper[p].broken = FALSE, !.oper[p].outdated = FALSE]
         \* the children are re-checked; those computed from another content of p are outdated now
         changed == oldHash # S3.hand[p].hash
-        cs == SortedSeq(ChildrenOf(S3, p))
+        cs == ChildSeq(S3, p)
         RECURSIVE Upd(_, _)
         Upd(T, i) == IF i > Len(cs) THEN T
                      ELSE LET T1 == CheckOp(T, cs[i]) IN Upd(IF changed THEN [T1 EXCEPT !.oper[cs[i]].outdated = TRUE] ELSE T1, i + 1)
@@ -294,12 +314,12 @@ Apply(S, c) ==
     [] c.op = "Lock" -> Lock(S, c.p)
     [] c.op = "Close" -> CloseSrc(S, c.p)
     [] c.op = "Open" -> OpenSrc(S, c.p)
-    [] c.op = "Reload" -> Reload(S)
+    [] c.op = "Reload" -> Reload(S, c.n)
     [] c.op = "ShiftPict" -> ShiftPict(S, c.p, c.n)
     [] c.op = "LoadPosition" -> LoadPosition(S, c.p, <<c.a, c.b>>)
     [] c.op = "InitFor" -> InitFor(S, c.p, c.type, c.table)
     [] c.op = "Execute" -> Execute(S, c.p, NewSrcOf, FALSE).S
-    [] c.op = "ExecuteAll" -> ExecAll(S, SortedSeq(DOMAIN S.oper), 1, NewSrcOf)
+    [] c.op = "ExecuteAll" -> ExecAll(S, SelectSeq(S.gitems, LAMBDA x : IsOp(S, x)), 1, NewSrcOf)
 RECURSIVE ApplyAll(_, _, _)
 ApplyAll(S, cs, i) == IF i > Len(cs) THEN S ELSE ApplyAll(Apply(S, cs[i]), cs, i + 1)
 
